@@ -18,7 +18,7 @@ theorem C04_delivered_is_taken (cfg : Cfg) (evs : List Ev) :
   (runEvs_InvG cfg evs).deliv
 
 /-- **Conservation of messages.** Everything the reader took off the wire is, in order, either gone for good
-    (delivered, or dropped by a late cancel), held for the pending receive, or still queued; and the frames the reader
+    (delivered: `C04_nothing_lost`), held for the pending receive, or still queued; and the frames the reader
     took plus the frames still buffered are exactly the frames received. -/
 theorem C04_flow (cfg : Cfg) (evs : List Ev) :
     (reach cfg evs).gone.map (·.1) ++ (reach cfg evs).vres.toList ++ (reach cfg evs).queue
@@ -37,20 +37,92 @@ private theorem gone_all_taken (g : List (Nat × Bool)) (h : (g.filter (fun p =>
     | true => simp at h ⊢; exact ih (by simpa using h)
     | false => simp at h
 
-/-- **Prefix (the property, for histories without a late cancel).** If no message was dropped by a late cancel, the
-    sequence handed to the consumer is a prefix of the decodable messages carried by the frames received so far:
-    same order, nothing skipped, nothing twice, nothing that was not sent.
-    The hypothesis excludes exactly the known finding witnessed in `Witness/C04.lean`. -/
-theorem C04_prefix_partial (cfg : Cfg) (evs : List Ev) (hl : (reach cfg evs).lost = []) :
+/-- **Nothing is dropped.** No message ever leaves the queue other than into the hands of a consumer: since the repair of
+    C04-late-cancel-loses-message a cancelled receive puts the message its helper task held back in front of the queue
+    (the previous semantics is kept, with the history on which it loses a message, in `Witness/C04Late.lean`). -/
+theorem C04_nothing_lost (cfg : Cfg) (evs : List Ev) : (reach cfg evs).lost = [] :=
+  (runEvs_InvG cfg evs).lost
+
+/-- **Exact accounting.** What has been delivered, then the message held for the pending receive, then the queue, is exactly
+    the sequence of messages the reader has decoded so far — in every reachable state, whatever was cancelled. -/
+theorem C04_accounting (cfg : Cfg) (evs : List Ev) :
+    delivered (reach cfg evs).trace ++ (reach cfg evs).vres.toList ++ (reach cfg evs).queue = msgsOf (reach cfg evs).consumed := by
+  have i := runEvs_InvG cfg evs
+  have ht : (reach cfg evs).taken = (reach cfg evs).gone.map (·.1) := (gone_all_taken _ i.lost).symm
+  rw [i.deliv]
+  show (reach cfg evs).taken ++ _ ++ _ = _
+  rw [ht, i.flow, i.recvd]
+
+/-- **Prefix (the property).** The sequence handed to the consumer is a prefix of the decodable messages carried by the
+    frames received so far: same order, nothing skipped, nothing twice, nothing that was not sent — for every configuration
+    and every event sequence, late cancels of receives included. -/
+theorem C04_prefix (cfg : Cfg) (evs : List Ev) :
     delivered (reach cfg evs).trace <+: msgsOf (reach cfg evs).wire := by
   have i := runEvs_InvG cfg evs
-  obtain ⟨hf, hw⟩ := C04_flow cfg evs
-  rw [i.deliv]
-  have ht : (reach cfg evs).gone.map (·.1) = (reach cfg evs).taken := gone_all_taken _ hl
-  rw [← hw, msgsOf_append, ← hf, ht]
+  rw [← i.wire, msgsOf_append, ← C04_accounting cfg evs]
   exact ⟨(reach cfg evs).vres.toList ++ (reach cfg evs).queue ++ msgsOf (reach cfg evs).buf, by simp⟩
 
-/-- **Order, no duplicates, no inventions — unconditionally.** Even when a late cancel dropped messages, what the
+theorem reach_snoc (cfg : Cfg) (evs : List Ev) (e : Ev) : reach cfg (evs ++ [e]) = step cfg (reach cfg evs) e := by
+  simp [reach, runEvs, List.foldl_append]
+
+theorem reach_snoc2 (cfg : Cfg) (evs : List Ev) (e1 e2 : Ev) :
+    reach cfg (evs ++ [e1, e2]) = step cfg (step cfg (reach cfg evs) e1) e2 := by
+  simp [reach, runEvs, List.foldl_append]
+
+/-- **A cancelled receive consumes no message, and the next receive returns the next undelivered message.**
+    In any reachable state, let the cancellation of user task `u` be delivered inside its `receive_msg()` — early (the helper
+    task was cancelled with it) or *late* (the helper had already taken a message off the queue, `vres = some n`: the window of
+    the former finding).  Then the caller sees the cancellation (the end-of-queue error if the queue was stopped meanwhile),
+    nothing is delivered, no receive is pending any more, and the undelivered messages are all still there, in order, in front
+    of the next reader: the held message first, then the queue.  Delivered ++ queue is exactly what the reader has decoded;
+    and the next `receive_msg_nowait()` returns precisely the first undelivered message (the held one, if there was one). -/
+theorem C04_cancelled_receive_consumes_nothing (cfg : Cfg) (evs : List Ev) (u : Nat)
+    (hst : (reach cfg evs).status (.U u) = .cancelled) (hp : (reach cfg evs).prog (.U u) = .recvWait u) :
+    let s := reach cfg evs
+    let s' := reach cfg (evs ++ [.run (.U u)])
+    s'.trace = s.trace ++ [.ret u (if s.qClosed then .eoq else .cancelled)] ∧
+    delivered s'.trace = delivered s.trace ∧
+    s'.vres = none ∧ s'.rcvBusy = false ∧ s'.queue = s.vres.toList ++ s.queue ∧
+    delivered s'.trace ++ s'.queue = msgsOf s'.consumed ∧
+    (∀ n q u', s'.queue = n :: q → s'.dispSet = false →
+      (reach cfg (evs ++ [.run (.U u), .callRecvNowait u'])).trace = s'.trace ++ [.ret u' (.msg n)] ∧
+      (reach cfg (evs ++ [.run (.U u), .callRecvNowait u'])).queue = q) := by
+  intro s s'
+  have e : s' = step cfg s (.run (.U u)) := reach_snoc cfg evs _
+  have hst' : s.status (.U u) = .cancelled := hst
+  have hp' : s.prog (.U u) = .recvWait u := hp
+  have h1 : s'.trace = s.trace ++ [.ret u (if s.qClosed then .eoq else .cancelled)] ∧ s'.vres = none ∧ s'.rcvBusy = false ∧
+      s'.queue = s.vres.toList ++ s.queue := by
+    rw [e]
+    cases hq : s.qClosed <;>
+      simp [step, runnable, hst', stepRun, hp', hq, St.emit, St.finish]
+  obtain ⟨ht, hv, hb, hqu⟩ := h1
+  have hd : delivered s'.trace = delivered s.trace := by
+    rw [ht, delivered_append]
+    cases s.qClosed <;> simp [deliveredObs]
+  have hacc := C04_accounting cfg (evs ++ [.run (.U u)])
+  refine ⟨ht, hd, hv, hb, hqu, ?_, ?_⟩
+  · show delivered s'.trace ++ s'.queue = msgsOf s'.consumed
+    have : delivered s'.trace ++ s'.vres.toList ++ s'.queue = msgsOf s'.consumed := hacc
+    rw [hv] at this; simpa using this
+  · intro n q u' hq hds
+    have e2 : reach cfg (evs ++ [.run (.U u), .callRecvNowait u']) = step cfg s' (.callRecvNowait u') := by
+      rw [reach_snoc2, e]
+    rw [e2]
+    simp [step, hb, hv, hds, hq, St.emit]
+
+/-- … and so does the next blocking `receive_msg()`: on a state with no receive pending, no dispatcher, no live helper task
+    and a non-empty queue it returns the first queued message without suspending (state-level; after a cancelled receive the
+    first three hold by `C04_cancelled_receive_consumes_nothing`, the helper of the cancelled receive has ended). -/
+theorem C04_receive_returns_head (cfg : Cfg) (s : St) (u : Nat) (n : Nat) (q : List Nat)
+    (hb : s.rcvBusy = false) (hv : s.vres = none) (hV : alive (s.status .V) = false) (hd : s.dispSet = false)
+    (hu : s.status (.U u) = .absent) (hq : s.queue = n :: q) :
+    (step cfg (step cfg s (.callRecv u)) (.run (.U u))).trace = s.trace ++ [.ret u (.msg n)] ∧
+    (step cfg (step cfg s (.callRecv u)) (.run (.U u))).queue = q ∧
+    (step cfg (step cfg s (.callRecv u)) (.run (.U u))).vres = none := by
+  simp [step, startRecv, hb, hv, hV, hd, hu, hq, runnable, St.setStatus, St.setProg, stepRun, St.emit, St.finish]
+
+/-- **Order, no duplicates, no inventions** (a consequence of `C04_prefix`, kept with its independent proof): what the
     consumer saw is a subsequence of what was sent: never reordered, never duplicated, never invented. -/
 theorem C04_sublist (cfg : Cfg) (evs : List Ev) :
     List.Sublist (delivered (reach cfg evs).trace) (msgsOf (reach cfg evs).wire) := by
